@@ -26,7 +26,7 @@ from gvsim.sim import Raised, Sim, sut
 
 PROP = 'C02'
 TIERS = {'quick': {'runs': 1200, 'wall': 120, 'chunk': 20}, 'thorough': {'runs': 30000, 'wall': 1500, 'chunk': 25}}
-REACH = ['reseed_gv', 'np_draw', 'py_seed', 'debug_flip', 'cache_pressure', 'restart_fresh_interpreter', 'twin_pair', 'reseeded_vs_fresh', 'stochastic_draw', 'numeric_representation_in_history', 'functional_rollout_on_foreign_states']  # probes / faults that must fire in every batch (reach gaps are reported in the evidence)
+REACH = ['reseed_gv', 'np_draw', 'py_seed', 'debug_flip', 'cache_pressure', 'restart_fresh_interpreter', 'twin_pair', 'reseeded_vs_fresh', 'stochastic_draw', 'numeric_representation_in_history', 'functional_rollout_on_foreign_states', 'sampling_helpers_on_persistent_sequences']  # probes / faults that must fire in every batch (reach gaps are reported in the evidence)
 RULE = ('interleave runs: 2-4 live environments (all shipped configurations, coin_env, random compositions containing '
         'every stochastic component and every random reset; twins with equal configuration, seed and actions) whose '
         'operations a seeded scheduler interleaves with an adversary that reseeds / draws from / clears every '
@@ -72,6 +72,9 @@ def client_ops(r, n):
             ops.append(['read_obs', r.choice([1, 1, 2])])
         elif m < 0.90:
             ops.append(['reset'])
+        elif m < 0.915:
+            # user code (a custom reset function, say) calling the sampling helpers on lists that outlive the call
+            ops.append(['helper_probe', r.randrange(2**31), r.randint(2, 9)])
         elif m < 0.94:
             # a planner: functional calls on states that are not the environment's own state object
             ops.append(['plan', r.randrange(4), r.randrange(1 << 16), r.randint(1, 4)])
@@ -299,6 +302,27 @@ class IsoSim(Sim):
         sk = state_key(cl.env.state)
         self.ctx.state(sk)
         self._hist(cl, 'step', a.name, sha(sk), repr(float(r[0])), bool(r[1]), *self._numeric(cl, 'state', cl.env.state))
+
+    def op_helper_probe(self, cl, s, n):
+        """the sampling helpers of gym_gridverse.rng with an explicit generator: the answer is a function of the generator
+        state and the sequence, the caller's sequence is left alone (it may be a configuration value shared by several
+        environments), and no global source is touched"""
+        from gym_gridverse import rng as gvrng
+
+        self.ctx.fault('sampling_helpers_on_persistent_sequences')
+        data = [f'v{j}' for j in range(n)]
+        for name, call in (('choice', lambda g, d: gvrng.choice(g, d)), ('choices', lambda g, d: gvrng.choices(g, d, size=max(1, n // 2), replace=False)),
+                           ('shuffle', lambda g, d: gvrng.shuffle(g, d))):
+            before = list(data)
+            a = self._around(cl, 'rng.' + name, lambda: sut(call, gvrng.make_rng(s), data))
+            if data != before:
+                self.violate('isolation', 'helper_modified_callers_sequence', 'rng.' + name, '-', f'rng.{name} left the sequence it was given as {data} (was {before})')
+                return
+            b = sut(call, gvrng.make_rng(s), data)
+            if isinstance(a, Raised) or isinstance(b, Raised) or a != b:
+                self.violate('isolation', 'helper_not_reproducible', 'rng.' + name, '-', f'rng.{name} with equally seeded generators: {a!r} vs {b!r}')
+                return
+            self._hist(cl, 'helper', name, sha([str(x) for x in (a if isinstance(a, list) else [a])]))
 
     def op_plan(self, cl, start, k, n):
         """the functional interface on states that are not the environment's live state object: a rebuilt copy of
